@@ -302,6 +302,12 @@ def replay_file(pid, path):
             say(f"VIOLATION property={pid} replay={path}")
             return 1
         return 0
+    if line[1] == "indexslice":
+        import emit_props
+        return emit_props.replay_indexslice(pid, path)
+    if line[1] == "flat":
+        import emit_props
+        return emit_props.replay_flat(pid, path)
     if line[1] == "grouping":
         import emit_props
         return emit_props.replay_grouping(pid, path)
